@@ -42,6 +42,11 @@ def notable(effects):
 
 
 def run(ctx):
+    _run_main(ctx)
+    _shared_r5(ctx)
+
+
+def _run_main(ctx):
     with ctx.rule('R16.1', 'handshake state machine equals the AMQP handshake automaton', floor=10) as r:
         rows = P.table(ctx, PROC, ['self', 'inner', 'frame'])
         site = ctx.site(PROC)
@@ -303,3 +308,10 @@ def run(ctx):
                              'io_loop::IoLoop::is_handshake_done', 'io_loop::IoLoop::wait_for_amqp_handshake', '<T as serialize::TryFromAmqpFrame>'))
     panics.inventory(ctx, 'R16.6', 'no undischarged panic-capable site in the handshake functions', roots=['io_loop::IoLoop::run_amqp_handshake', 'io_loop::IoLoop::handle_handshake_event', 'io_loop::IoLoop::is_handshake_done'],
                      scope=scope, floor_sites=3)
+
+
+def _shared_r5(ctx):
+    """Rules of other properties that are necessary conditions of this one too (found by seeding round 5)."""
+    from rules import arms as A
+    with ctx.rule('R16.10', 'the credentials a URL spells out are the ones StartOk answers with (shared with C19)', floor=2) as r:
+        A.include(ctx, r, 'c19', 'R19.1', pick=('decode:',))
